@@ -19,8 +19,9 @@ EXPLANATION = (
     "against (a keyword without a handler makes a specification document unparsable). Inclusion is checked in the "
     "direction 'specification subset of implementation' for keyword tables, because the vendored parser deliberately "
     "also accepts later-draft syntax (repeatable, VARIABLE_DEFINITION, interfaces implementing interfaces). The "
-    "context-free grammar, the shape of the produced tree, block-string value semantics and print/re-parse equality "
-    "are NOT decided: they are differential properties against a reference implementation. The same lexer tables "
+    "BlockStringValue computation (three sibling copies in the workspace) classifies white space by comparison with "
+    "tab and space only (no Unicode-aware trim / is_whitespace). The context-free grammar, the shape of the produced "
+    "tree, the rest of block-string value semantics and print/re-parse equality are NOT decided: they are differential properties against a reference implementation. The same lexer tables "
     "are used by the compiler's own schema parser (C30, not claimed).")
 ASSUMPTIONS = ["logos compiles the attribute regexes with the regex-syntax semantics that Python's re shares for the constructs used here (classes, alternation, ?, +, *, \\uXXXX)"]
 
@@ -87,15 +88,15 @@ def run(cx):
         cx.ob("R29.lexical", "punctuator|%s" % p, p in tokens,
               "the specification's punctuator %r has no #[token] in the lexer: documents using it are rejected" % p, where)
     # ---- ignored ----------------------------------------------------------------------------------------------
-    if len(tk["skip"]) != 1:
-        raise AnchorError("expected one skip rule in TokenKind, found %s" % tk["skip"])
-    alts = tk["skip"][0].split("|")
+    if not tk["skip"]:
+        raise AnchorError("no skip rule in TokenKind")
+    alts = [a for rx_ in tk["skip"] for a in rx_.split("|")]
     cls = [a for a in alts if a.startswith("[")]
     com = [a for a in alts if a.startswith("#")]
-    if len(cls) != 1:
-        raise AnchorError("skip rule is not `[class]+|comment`: %r" % tk["skip"][0])
-    cre = re.compile(cls[0].rstrip("+"))
-    skipped = {chr(c) for c in range(0, 0x10000) if cre.fullmatch(chr(c))}
+    if not cls or len(cls) + len(com) != len(alts):
+        raise AnchorError("skip rules are not of the shapes `[class]+` and `#comment`: %r" % tk["skip"])
+    cres = [re.compile(c_.rstrip("+")) for c_ in cls]
+    skipped = {chr(c) for c in range(0, 0x10000) if any(cre.fullmatch(chr(c)) for cre in cres)}
     for ch in sorted(SPEC_IGNORED):
         cx.ob("R29.lexical", "ignored|U+%04X-is-skipped" % ord(ch), ch in skipped,
               "the specification ignores U+%04X between tokens but the lexer's skip rule does not" % ord(ch), where)
@@ -104,7 +105,7 @@ def run(cx):
           "the lexer silently skips %s, which the specification does not allow in a document (not a SourceCharacter "
           "that is ignored): such documents are accepted here and rejected by a conforming implementation" % (
               ["U+%04X" % ord(c) for c in extra]), where)
-    cre2 = re.compile(com[0]) if com else None
+    cre2 = re.compile(com[0]) if len(com) == 1 else None
     ok = cre2 is not None and all(cre2.fullmatch(w) for w in ("#", "# a,b \t{}\"", "#﻿x")) and not any(
         cre2.fullmatch(w) for w in ("#a\n", "#a\r", "a#"))
     cx.ob("R29.lexical", "ignored|comment-shape", bool(ok),
@@ -191,3 +192,42 @@ def run(cx):
     later = sorted(w for w in ("repeatable", "VARIABLE_DEFINITION") if w in consts)
     if later:
         cx.note("accepted beyond June 2018 (later drafts, by design of the vendored parser): %s" % later)
+    # ---- block string values: WhiteSpace is tab and space only ------------------------------------------------
+    # (the three copies of the BlockStringValue algorithm in the workspace are siblings and must agree)
+    UNICODE_WS = r"<impl str>::(trim|trim_start|trim_end|trim_left|trim_right|split_whitespace|split_ascii_whitespace)$|char::methods::<impl char>::(is_whitespace|is_ascii_whitespace)$"
+    allfb = cx.mir("graphql_syntax", "graphql_schema_parser", "isograph_lang_parser")
+    copies = allfb.find(r"::clean_block_string_literal$")
+    cx.floor("R29.block-string implementations of BlockStringValue", len(copies), 3)
+    for f in copies:
+        reach = [g for g in allfb.reachable_fns([f]).values() if g.crate == f.crate and g.file == f.file]
+        fam = []
+        for g in [f] + list(reach):
+            for h in allfb.with_closures(g):
+                if h not in fam:
+                    fam.append(h)
+        # functions passed by name (`line.contains(is_not_whitespace)`) belong to the computation too
+        for _ in range(3):
+            for h in list(fam):
+                for st in list(h.stmts()) + [None]:
+                    ops = st.ops if st is not None else [a for t in h.calls() for a in t.args]
+                    for o in ops:
+                        c = op_const(o)
+                        if c and c.get("fn") in allfb.fns and allfb.fns[c["fn"]] not in fam and allfb.fns[c["fn"]].file == f.file:
+                            fam.append(allfb.fns[c["fn"]])
+        bad = [(h, t) for h in fam for t in h.calls() if re.search(UNICODE_WS, t.callee or "")]
+        cx.ob("R29.block-string", "%s|whitespace-is-tab-and-space-only" % f.crate, not bad,
+              "the BlockStringValue computation uses %s, which treats every Unicode White_Space character (U+00A0, U+3000, ...) "
+              "as indentation / blank; the specification's WhiteSpace is tab and space only, so block strings whose lines start "
+              "with such characters get a different value" % sorted({(t.callee or '').split('::')[-1] for _, t in bad}),
+              bad[0][0].loc(bad[0][1].line) if bad else f.loc())
+        chars = set()
+        for h in fam:
+            for st in h.stmts():
+                for o in st.ops:
+                    c = op_const(o)
+                    if c and c.get("ty") == "char":
+                        chars.add(c.get("v"))
+        cx.ob("R29.block-string", "%s|whitespace-constants" % f.crate, {" ", "\t"} <= chars and not (chars - {" ", "\t", "\n", "\r"}),
+              "the characters compared against in the BlockStringValue computation are %s; expected space and tab" % sorted(chars), f.loc(),
+              nontrivial=False)
+
